@@ -238,7 +238,7 @@ theorem lowOnes_ushiftRight (s : Nat) (hs : s ≤ 63) : lowOnes s >>> s = 0#64 :
   exact Nat.div_eq_of_lt (by omega)
 
 theorem encode_or_lowOnes (hi : I64) (s : Nat) (hs : s ≤ 63) : encode (hi ||| lowOnes s) s = encode hi s := by
-  rw [encode_eq, encode_eq]
+  rw [encode_eq_digits, encode_eq_digits]
   congr 2
   rw [BitVec.ushiftRight_xor_distrib, BitVec.ushiftRight_xor_distrib, BitVec.ushiftRight_or_distrib,
     lowOnes_ushiftRight s hs, BitVec.or_zero]
@@ -451,7 +451,7 @@ theorem hits_iff_sameShift (lo hi v : I64) (r : TermRange) (hr : r ∈ split lo 
       · exact mem_splitLoop_form _ _ _ _ r hr
     obtain ⟨a, b, s, rfl⟩ := hform
     refine ⟨t, ht, ?_, h1, h2⟩
-    simp only [newRange, encode_eq] at h1 h2 ⊢
+    simp only [newRange, encode_eq_digits] at h1 h2 ⊢
     rw [head_between _ _ _ t h1 h2]; rfl
   · rintro ⟨t, ht, _, h1, h2⟩; exact ⟨t, ht, h1, h2⟩
 
@@ -462,5 +462,9 @@ theorem split_exact_sameShift (lo hi v : I64) :
   · rintro ⟨r, hr, h⟩; exact ⟨r, hr, (hits_iff_sameShift lo hi v r hr).2 h⟩
   · rintro ⟨r, hr, h⟩; exact ⟨r, hr, (hits_iff_sameShift lo hi v r hr).1 h⟩
 
+
+/-- instances: a range spanning three levels; the full int64 range (stopped by the wrap tests) is one range -/
+example : (split (-40#64) 300#64 4).length = 5 := by decide
+example : (split 0x8000000000000000#64 0x7fffffffffffffff#64 4).length = 1 := by decide
 
 end Bluge.C10
